@@ -179,4 +179,4 @@ RL_ALLOW = dict(file="src/draw_target.rs", container="RateLimiter", name="allow"
                          ("reference-time", "final(self).prev.ns() <= (if res { now.ns() } else { old(self).prev.ns() })")])
 
 # R20: `b |= e;` on bools (Verus rejects the non-short-circuit `|`): evaluate e first, then `||`
-BOOL_OR_ASSIGN = Rw("R20", r"(\w+) \|= ([^;]+);", r"{ let __or = \2; \1 = \1 || __or; }", count=None)
+BOOL_OR_ASSIGN = Rw("R20", r"(\w+) \|= ([^;]+);", r"{ let __or = \2; \1 = \1 || __or; }", count="any")
